@@ -164,6 +164,10 @@ func (u *Unit) clientCall(fc *frameCtx, name string, sig *types.Signature, args 
 		u.assume(pc, c.Forall([]*Term{a}, c.Implies(region, c.Or(c.Eq(rsel, c.Nil()), inNew(rsel))), []*Term{rsel}))
 		ssel := c.mk("select", "", SSlice, u.heapArr(st, SSlice), a)
 		u.assume(pc, c.Forall([]*Term{a}, c.Implies(region, c.Or(c.Eq(c.SArr(ssel), c.Nil()), inNew(c.SArr(ssel)))), []*Term{ssel}))
+		u.freshRegions = append(u.freshRegions, freshRegion{guard: pc, before: before, after: after, objRoot: c.Root(obj), refArr: u.heapArr(st, SRef), slArr: u.heapArr(st, SSlice)})
+		if verb == "List" {
+			u.listNamesDistinct(st, pc, obj, args[objIdx].T, namespaced)
+		}
 	case "Create", "Update", "Patch", "StatusUpdate", "StatusPatch":
 		fr := &FrameSpec{Roots: []*Term{c.Root(obj)}}
 		if stt := u.ifaceStatic[args[objIdx].T.id]; stt != nil {
@@ -182,7 +186,38 @@ func (u *Unit) clientCall(fc *frameCtx, name string, sig *types.Signature, args 
 		u.checkCalleeFrame(fc, pc, fr, name, pos)
 		u.havoc(st, pc, fr)
 	}
-	return u.freshResults(shortName(name), sig, st, pc), true
+	res := u.freshResults(shortName(name), sig, st, pc)
+	if verb == "Get" && len(args[2].F) == 2 && len(res) == 1 && res[0].T != nil {
+		// Assumed about the API server: a successful Get returns the object stored under the key asked for.
+		if stt := u.ifaceStatic[args[objIdx].T.id]; stt != nil {
+			if pt, ok := stt.Underlying().(*types.Pointer); ok {
+				if sst, ok := pt.Elem().Underlying().(*types.Struct); ok {
+					for i := 0; i < sst.NumFields(); i++ {
+						ost, ok := sst.Field(i).Type().Underlying().(*types.Struct)
+						if sst.Field(i).Name() != "ObjectMeta" || !ok {
+							continue
+						}
+						om := c.Fld(obj, u.e.lay.fieldID(pt.Elem(), sst, i))
+						for j := 0; j < ost.NumFields(); j++ {
+							var want *Term
+							switch ost.Field(j).Name() {
+							case "Namespace":
+								want = args[2].F[0].T
+							case "Name":
+								want = args[2].F[1].T
+							default:
+								continue
+							}
+							u.usedTrusted["assumed: a successful client Get returns the object named by the key"] = true
+							got := c.Select(u.heapArr(st, SStr), c.Fld(om, u.e.lay.fieldID(sst.Field(i).Type(), ost, j)))
+							u.assume(c.And(pc, c.Eq(res[0].T, c.Nil())), c.Eq(got, want))
+						}
+					}
+				}
+			}
+		}
+	}
+	return res, true
 }
 
 // listNamespace inspects a literal option slice for a namespace restriction.
@@ -262,3 +297,63 @@ func logFieldSort(f string) *Sort {
 
 var _ = fmt.Sprintf
 var _ = strings.HasPrefix
+
+
+// listNamesDistinct: assumed about the API server: the objects returned by one List have pairwise distinct names when
+// they all live in one namespace (a namespaced List) or are cluster-scoped nodes.
+func (u *Unit) listNamesDistinct(st *State, pc *Term, obj, ifaceArg *Term, namespaced *Term) {
+	c := u.c
+	stt := u.ifaceStatic[ifaceArg.id]
+	if stt == nil {
+		return
+	}
+	pt, ok := stt.Underlying().(*types.Pointer)
+	if !ok {
+		return
+	}
+	lst, ok := pt.Elem().Underlying().(*types.Struct)
+	if !ok {
+		return
+	}
+	for i := 0; i < lst.NumFields(); i++ {
+		if lst.Field(i).Name() != "Items" {
+			continue
+		}
+		sl, ok := lst.Field(i).Type().Underlying().(*types.Slice)
+		if !ok {
+			return
+		}
+		est, ok := sl.Elem().Underlying().(*types.Struct)
+		if !ok {
+			return
+		}
+		cond := namespaced
+		if typeName(pt.Elem()) == "k8s.io/api/core/v1.NodeList" {
+			cond = c.True()
+		}
+		for j := 0; j < est.NumFields(); j++ {
+			if est.Field(j).Name() != "ObjectMeta" {
+				continue
+			}
+			ost, ok := est.Field(j).Type().Underlying().(*types.Struct)
+			if !ok {
+				return
+			}
+			for k := 0; k < ost.NumFields(); k++ {
+				if ost.Field(k).Name() != "Name" {
+					continue
+				}
+				u.usedTrusted["assumed: objects returned by one namespaced (or node) List have pairwise distinct names"] = true
+				items := c.Select(u.heapArr(st, SSlice), c.Fld(obj, u.e.lay.fieldID(pt.Elem(), lst, i)))
+				nameAt := func(ix *Term) *Term {
+					e := c.SElem(items, ix)
+					om := c.Fld(e, u.e.lay.fieldID(sl.Elem(), est, j))
+					return c.mk("select", "", SStr, u.heapArr(st, SStr), c.Fld(om, u.e.lay.fieldID(est.Field(j).Type(), ost, k)))
+				}
+				a, b := c.BoundVar("la", SInt), c.BoundVar("lb", SInt)
+				rng := c.And(c.Le(c.Int(0), a), c.Lt(a, b), c.Lt(b, c.SLen(items)))
+				u.assume(c.And(pc, cond), c.Forall([]*Term{a, b}, c.Implies(rng, c.Neq(nameAt(a), nameAt(b))), []*Term{nameAt(a), nameAt(b)}))
+			}
+		}
+	}
+}
